@@ -109,7 +109,7 @@ fn metamorphic(c: &mut Cmp, s: &SlicedPacket, l: &LaxSlicedPacket) {
             c.eq("strict-vs-lax", "ipv6.header", y.header() == x.header(), true);
             c.eq("strict-vs-lax", "ipv6.exts", y.extensions() == x.extensions(), true);
             let (p, q) = (x.payload(), y.payload());
-            c.eq("strict-vs-lax", "ipv6.payload", (q.ip_number, q.fragmented, q.payload.as_ptr(), q.payload.len()), (p.ip_number, p.fragmented, p.payload.as_ptr(), p.payload.len()));
+            c.eq("strict-vs-lax", "ipv6.payload", (q.ip_number, q.fragmented, q.len_source, q.payload.as_ptr(), q.payload.len()), (p.ip_number, p.fragmented, p.len_source, p.payload.as_ptr(), p.payload.len()));
             c.eq("strict-vs-lax", "ipv6.payload.incomplete", q.incomplete, false);
         }
         (Some(NetSlice::Arp(x)), Some(LaxNetSlice::Arp(y))) => c.eq("strict-vs-lax", "arp", y == x, true),
